@@ -317,6 +317,11 @@ InstalledIds(d) ==      \* sequence of share ids at installed positions (with mu
          LET RECURSIVE CatS(_)
              CatS(i) == IF i > Len(d.vals) THEN <<>> ELSE InstalledIds(d.vals[i]) \o CatS(i + 1)
          IN own \o CatS(1)
+    (* binning containers copy the flow aggregators their constructor is given; a flow marked inst was put in  *)
+    (* place afterwards by assignment (h.nanflow = obj): the object itself sits at that position              *)
+    [] d.k \in {"Bin", "SparselyBin", "CentrallyBin", "IrregularlyBin", "Stack"} ->
+         LET Fl(f) == IF f \in DOMAIN d /\ "inst" \in DOMAIN d[f] /\ d[f].inst THEN InstalledIds(d[f]) ELSE <<>>
+         IN own \o Fl("under") \o Fl("over") \o Fl("nan")
     [] OTHER -> own
 SharedFillable(d) ==
   LET ids == InstalledIds(d) IN \E i, j \in DOMAIN ids : i # j /\ ids[i] = ids[j]
